@@ -83,6 +83,14 @@ KINDS = {
     'bad_repr_with_output_first_part': (['>>> class R:', '...     def __repr__(self):',
                                          '...         raise RuntimeError("norepr")', '', 'prose', '',
                                          '>>> (print("printed"), R())[1]  # FAILMARK', 'something', 'else'], None),
+    # exceptions raised at run time that carry a line number of their own (it refers to some other text)
+    'runtime_syntax': (['>>> rs0 = 1', '>>> rs1 = 2', '>>> compile("x = = 1", "<s>", "exec")  # FAILMARK'], 'SyntaxError'),
+    'runtime_lineno_attr': (['>>> import json', '>>> rl0 = 1', '>>> json.loads("[1," + chr(10) * 7 + " oops]")  # FAILMARK'],
+                            'JSONDecodeError'),
+    # wants are not compared (IGNORE_WANT inline / for the rest of the doctest): an exception still is a failure
+    'raise_ignore_want_inline': (['>>> iw0 = 1', '>>> int("FAILMARK")  # xdoctest: +IGNORE_WANT', '12'], 'ValueError'),
+    'raise_ignore_want_block': (['>>> # xdoctest: +IGNORE_WANT', '>>> print("anything")', 'something else',
+                                 '>>> int("FAILMARK")', '12', '>>> iw1 = 1'], 'ValueError'),
     'bad_directive': (['>>> x = 1  # xdoctest: +REQUIRES(notatag) FAILMARK'], 'Exception'),
     'bad_directive_block': (['>>> # xdoctest: +REQUIRES(notatag) FAILMARK', '>>> x = 1'], 'Exception'),
     # unbalanced parentheses in a directive comment that the parser does not look at (extra blanks after the prompt):
